@@ -437,9 +437,15 @@ def IsExtremum (eq better : β → β → Bool) (v : List β) (m : β) : Prop :=
 instance (eq better : β → β → Bool) (v : List β) (m : β) : Decidable (IsExtremum eq better v m) := by
   unfold IsExtremum; infer_instance
 
+/-- position `i` holds a value `== m` -/
+def holdsAt (eq : β → β → Bool) (v : List β) (m : β) (i : Nat) : Bool :=
+  match v[i]? with
+  | some y => eq y m
+  | none => false
+
 /-- exactly the positions holding a value `== m`, in increasing order -/
 def IsPositionsOf (eq : β → β → Bool) (v : List β) (m : β) (pos : List Nat) : Prop :=
-  pos = (List.range v.length).filter (fun i => match v[i]? with | some y => eq y m | none => false)
+  pos = (List.range v.length).filter (holdsAt eq v m)
 
 instance (eq : β → β → Bool) (v : List β) (m : β) (pos : List Nat) : Decidable (IsPositionsOf eq v m pos) := by
   unfold IsPositionsOf; infer_instance
